@@ -205,8 +205,9 @@ def _mirjalili(ctx, col):
             "events == demands(0..D) x {splits in [0,Q]^m, sum <= Q}, aligned as a full cross product" if ok3 else
             f"event space is {brief(ev, 500) if ev else None}", text="event space cross product")
     # number of split components == max_useful_life (list comprehension over range(m))
-    src = ast.unparse(f2)
-    okm = "for _ in range(self.max_useful_life)" in src and "range(self.max_order_quantity + 1)" in src
+    lcs = [t for t in subterms(ev)] if ev is not None else []
+    lcs = [t for t in lcs if t[0] == "app" and t[1] == "listcomp"]
+    okm = bool(lcs) and all(t[2][0] == m and t[2][1][0] == "lam" and t[2][1][3] == ("app", "range", (T_add(Q, ONE),)) for t in lcs)
     col.add("R13.3", "MirjaliliPlateletPerishable._construct_random_event_space", o2.module.relpath, f2.lineno, okm,
             "one split component per age class (max_useful_life), each in 0..max_order_quantity" if okm else
             "split components are not range(max_order_quantity+1) for each of max_useful_life ages", text="split components")
